@@ -54,6 +54,8 @@ type Inst struct {
 
 	// cache
 	Key string `json:"key,omitempty"`
+	// EarlierKey: the builder was first given this key and then Key (possibly the empty one): the later call replaces
+	EarlierKey string `json:"earlier_key,omitempty"`
 
 	// bulkhead
 	Max       int `json:"max,omitempty"`
@@ -80,6 +82,9 @@ func (in Inst) String() string {
 	}
 	if in.Reuse {
 		s += "[builder reused afterwards]"
+	}
+	if in.EarlierKey != "" {
+		s += fmt.Sprintf("[WithKey(%q) replaced]", in.EarlierKey)
 	}
 	return s
 }
@@ -146,6 +151,10 @@ type Step struct {
 	Entry  int       `json:"entry,omitempty"`   // 0 Run 1 RunWithExecution 2 Get 3 GetWithExecution, +4 = Async
 	CtxKey string    `json:"ctx_key,omitempty"` // "" none | "s:<key>" string key | "int" non-string key
 	Script []Outcome `json:"script,omitempty"`
+	// EarlierCtx: the Executor is first given another context -- "plain": one with an unrelated value, "s:<key>": one that
+	// carries a cache key of its own -- and then the execution's context: WithContext configures the context it is given,
+	// nothing of the earlier one remains
+	EarlierCtx string `json:"earlier_ctx,omitempty"`
 	// PreCancel: the caller's context is already cancelled when the execution starts
 	PreCancel bool `json:"pre_cancel,omitempty"`
 	// TopLevel: the execution goes through the package-level failsafe.Get / GetWithExecution / GetAsync /
@@ -168,6 +177,9 @@ func (s Step) String() string {
 		}
 		if s.TopLevel {
 			return fmt.Sprintf("exec(entry=%d package-level script=%v)", s.Entry, s.Script)
+		}
+		if s.EarlierCtx != "" {
+			return fmt.Sprintf("exec(entry=%d key=%q script=%v executor-had-context=%s)", s.Entry, s.CtxKey, s.Script, s.EarlierCtx)
 		}
 		return fmt.Sprintf("exec(entry=%d key=%q script=%v)", s.Entry, s.CtxKey, s.Script)
 	case "advance":
